@@ -188,7 +188,10 @@ def make_cfg(seed, idx):
             sc["low_hz"] = float(max(1.0, min(sc["low_hz"], bank["low_hz"] if bank["low_hz"] > 0 else 1.0)))
             if bank["low_hz"] <= 0:
                 bank["low_hz"] = 5.0
-    return gen.si_cfg(rng, bank=bank)
+    cfg = gen.si_cfg(rng, bank=bank)
+    if idx % 11 == 6:
+        cfg["window_function"] = "vfwelch"  # a window written by a user against the documented interface (vf/userbank.py)
+    return cfg
 
 
 def _run_case(case, rec, mon=None):
